@@ -34,14 +34,15 @@ ASSUMPTIONS = [
     "simulation adds is the shared-object history and the hostile leftover state",
     "numba, numpy, moptipy are trusted",
 ]
-FAULT_KINDS = c14.FAULT_KINDS
+FAULT_KINDS = [k for k in c14.FAULT_KINDS
+               if k != "caller_threads_interleaved"]
 PROBES = [p for p in c14.PROBES if p not in (
     "left_stop_support", "left_stop_blocker", "alternations_ge3",
     "first_fit_earlier_bin", "new_bin_after_trying_many", "forced_rotation")] \
     + ["rotated_item_in_output", "item_as_large_as_bin", "one_item_per_bin"]
 HARD_CAP_S = 120.0
 CHUNK = 16
-plan = c14.plan
+plan = c14.base_plan
 
 
 def generate(rng: random.Random, batch: dict) -> dict:
